@@ -184,7 +184,7 @@ def run(ctx):
     taint_all = Taint(F, sorted(local_all), ["request_uri"], G=G)
 
     # R1 inventory over everything reachable (informational + floors)
-    r1 = chk.rule("R1-inventory", "file-system path arguments in request-reachable code classified constant vs request-derived", floor=10)
+    r1 = chk.rule("R1-inventory", "file-system path arguments in request-reachable code classified constant vs request-derived", floor=4)
     n_content = 0
     for n in sorted(local_all):
         fn = F.fns[n]
